@@ -18,7 +18,7 @@ use std::path::PathBuf;
 use std::sync::Mutex;
 use std::sync::atomic::{AtomicU64, Ordering};
 
-const FILES: [(&str, &str); 9] = [
+const FILES: [(&str, &str); 11] = [
     ("one-query", "query getUser { u { id } }\n"),
     ("two-operations", "query getUser { u { id } }\nmutation setIt { ping }\n"),
     ("query-and-fragment", "query getUser { u { ...userBits } }\nfragment userBits on User { id name }\n"),
@@ -28,6 +28,9 @@ const FILES: [(&str, &str); 9] = [
     ("mutation-and-fragment", "mutation setIt { set(input: {req: true}) { ...userBits } }\nfragment userBits on User { id }\n"),
     ("capitalised-names", "query GetUser { u { id } }\nfragment UserBits on User { id }\n"),
     ("all-kinds", "query q1 { s }\nmutation m1 { ping }\nsubscription s1 { tick }\nfragment f1 on User { id }\n"),
+    // names that already end with a configured (or the default) suffix
+    ("names-ending-with-suffixes", "query getUserDoc { u { ...userDoc ...UserFragment } }\nfragment userDoc on User { id }\nfragment UserFragment on User { name }\n"),
+    ("operation-names-ending-with-kind", "query userQuery { u { id } }\nmutation pingMutation { ping }\nsubscription tickSubscription { tick }\n"),
 ];
 
 #[derive(Clone, Debug)]
